@@ -363,6 +363,54 @@ mod imp {
                 }
             });
         }
+        // clear-count sweep: a key stored once, then N clears each preceded by a store of another key
+        // (so that every clear has something to clear), N at every magnitude up to 2^17+1; afterwards
+        // the first key must be gone, the table empty, and a fresh store must work
+        {
+            use inkayaku_engine_core::verif::SearchTable;
+            let mut counts: Vec<u64> = vec![1, 2, 3];
+            for k in 3..=17u32 {
+                counts.extend([(1u64 << k) - 1, 1 << k, (1 << k) + 1]);
+            }
+            par_map_fine(&counts, |&n| {
+                let r = guarded(|| {
+                    let mut problems: Vec<String> = Vec::new();
+                    let mut t = SearchTable::new();
+                    let mut bare = Table::new(8);
+                    t.put(0xABCDEF, 7, 123, 0, -5);
+                    bare.put(0xABCDEF, 77);
+                    for i in 0..n {
+                        t.put(1_000_000 + i, 1, i as i32, 1, 0);
+                        t.clear();
+                        bare.put(1_000_000 + i, i);
+                        bare.clear();
+                    }
+                    if let Some(e) = t.get(0xABCDEF) {
+                        problems.push(format!("search table: a key stored before {} clears is returned again: {:?}", n, e));
+                    }
+                    if t.len() != 0 {
+                        problems.push(format!("search table: len() = {} after {} clears", t.len(), n));
+                    }
+                    if bare.get(0xABCDEF).is_some() || bare.len() != 0 {
+                        problems.push(format!("keyed table: not empty after {} clears", n));
+                    }
+                    t.put(0xABCDEF, 2, 9, 2, 1);
+                    if t.get(0xABCDEF).map(|e| (e.0, e.1, e.2, e.3)) != Some((2, 9, 2, 1)) || t.len() != 1 {
+                        problems.push(format!("search table: a store after {} clears is not found (len {})", n, t.len()));
+                    }
+                    problems
+                });
+                wrapper_steps.fetch_add(2 * n + 4, std::sync::atomic::Ordering::Relaxed);
+                match r {
+                    Ok(problems) => {
+                        for pr in problems {
+                            rep.report(format!("clear_count:{}", pr.split(':').next().unwrap_or("").replace(' ', "_")), json!({"kind": "clear_count", "clears": n, "problem": pr}));
+                        }
+                    }
+                    Err(m) => rep.report("panic:clear_count".to_string(), json!({"kind": "clear_count", "clears": n, "panic": m})),
+                }
+            });
+        }
         let wrapper_secs = t3.elapsed().as_secs_f64();
         // declared-capacity probe: capacities of EVERY magnitude up to 2^62 cannot be filled, but what
         // the table does with the configured number shows without filling it: the fill level it
